@@ -7,8 +7,9 @@ from vlib.runner import Result, SubCheck, Violation
 
 PROPERTY = "C11"
 LEVEL = "exploration"
-RULE = ("LSHNearest configs (n_dimensions 1..6, n_tables 1..4, seeds, d 1..5, n_jobs 1..3 for hashing), history fit "
-        "+ 0..3 partial_fit, deterministic learning policy (EpsilonGreedy(0), UCB1, LinUCB). Queries: stored rows "
+RULE = ("LSHNearest configs (n_dimensions 1..6 mostly, n_tables 1..4, seeds, d 1..5, n_jobs 1..3 for hashing), history fit "
+        "+ 0..3 partial_fit with drawn early queries in between, deterministic learning policies and (through the per-row "
+        "seed) randomised ones; n_dimensions also drawn from {8, 16, 31..33, 40, 52..54, 64}. Queries: stored rows "
         "(from fit and from partial_fit), 2^k * stored row, c * stored row (c > 0), the zero row, random rows. "
         "Oracle: hyperplanes read from mab._imp.table_to_plane; neighbourhood(q) = stored rows sharing q's sign "
         "pattern under at least one table; expectations = fresh bandit (same learning policy) fit on exactly these "
